@@ -223,7 +223,7 @@ func c17Block(rt *rapid.T, r *ev.Rec, w *baWorld, sc baScenario, salt string) {
 	nontrivial := accepted > 0 && rejected > 0
 
 	fp := sc.String() + "#" + strings.Join(baDescs(ops), "|") + "#" + strings.Join(expeldesc, ",")
-	r.Case(fp, nontrivial, classes...)
+	defer r.Case(fp, nontrivial, classes...)
 
 	if nontrivial && r.WantSample() {
 		var verdicts []string
